@@ -399,9 +399,10 @@ dispatch_prep_((G1, G2), B, [Cont|Conts]) :-
 dispatch_prep_((G1 ; G2), B, Conts) :-
     (  nonvar(G1) ->
        (  G1 = (G11 -> G12) ->
-          dispatch_prep(G11, B, IConts2),
+          % a cut in the condition is local to the condition
+          dispatch_prep(G11, B1, IConts2),
           dispatch_prep(G12, B, IConts3),
-          cont_list_goal(IConts2, Cont2),
+          cont_list_goal(['$call'(builtins:get_cp(B1))|IConts2], Cont2),
           cont_list_goal(IConts3, Cont3),
           Cont0 = '$call'(builtins:staggered_if_then(Cont2, Cont3))
        ;  dispatch_prep(G1, B, IConts0),
